@@ -1,4 +1,5 @@
 import ShellOp.Proofs.Informer
+import ShellOp.Proofs.InformerReplay
 import ShellOp.Proofs.MonitorEnable
 /-!
 # C01 — no cluster change is lost between Synchronization and later Events
@@ -117,6 +118,47 @@ theorem noLoss_no_foreign (types : List Kind) (c : Cache) (w : List Ev) (sched :
     (hf : ∀ a ∈ sched, a ≠ Action.s1 Tag.foreign) :
     Quiescent (run true (init types c w) sched) → NoLoss (run true (init types c w) sched) :=
   fun q => noLoss_partial types c w sched q (marks_eq_of_no_foreign true _ sched rfl hf)
+
+/-- **C01 (replay).** For a binding firing all three event types (with any jqFilter: a suppressed
+change is exactly one that leaves the binding's projection of the object unchanged): applying the
+delivered Events, in order, on top of the Synchronization view reproduces the final matching state
+(as known to the operator), for every watch history and every schedule — duplicates of changes the
+view already reflects are harmless. Same hypothesis as `noLoss_partial`. -/
+theorem replay_reproduces_final_partial (c : Cache) (w : List Ev) (sched : List Action) :
+    let s := run true (init [.added, .modified, .deleted] c w) sched
+    Quiescent s → s.syncMark = s.anyMark →
+    Cache.Same (s.delivered.foldl applyEv s.syncView) s.cache := by
+  intro s q hm
+  have g : Good s := good_run _ sched (good_init _ c w)
+  have t : Tracks c s := tracks_run c _ sched
+    ⟨by intro id; rfl, by intro id; simp [init], by simp [init], by intro k; cases k <;> rfl⟩
+  obtain ⟨_, hw, _, he⟩ := q
+  have hdel : s.delivered = s.fired.drop s.base := by
+    have := (g.unlocked he).1
+    simpa [inflight, hw] using this
+  have hbs : s.base ≤ s.syncMark := by rw [hm]; exact g.base_le
+  have hsl : s.syncMark ≤ s.fired.length := t.mark_le
+  -- fired = A ++ P ++ Q with A = take base, P = the stale part, Q = after the view
+  have hsplit : s.fired.drop s.base = (s.fired.take s.syncMark).drop s.base ++ s.fired.drop s.syncMark := by
+    have e1 : s.fired.drop s.base = (s.fired.take s.syncMark ++ s.fired.drop s.syncMark).drop s.base := by
+      rw [List.take_append_drop]
+    rw [e1, List.drop_append_of_le_length (by simp; omega)]
+  have htake : s.fired.take s.syncMark = s.fired.take s.base ++ (s.fired.take s.syncMark).drop s.base := by
+    have : s.fired.take s.base = (s.fired.take s.syncMark).take s.base := by
+      rw [List.take_take]; congr 1; omega
+    rw [this, List.take_append_drop]
+  intro id
+  rw [hdel, hsplit, List.foldl_append]
+  have h1 := same_foldl (s.fired.drop s.syncMark) _ _
+    (same_foldl ((s.fired.take s.syncMark).drop s.base) _ _ t.view)
+  rw [h1 id]
+  have h2 : Cache.Same
+      (List.foldl applyEv ((s.fired.take s.syncMark).foldl applyEv c) ((s.fired.take s.syncMark).drop s.base))
+      ((s.fired.take s.syncMark).foldl applyEv c) := by
+    have := replay_suffix_same c (s.fired.take s.base) ((s.fired.take s.syncMark).drop s.base)
+    rw [← htake] at this; exact this
+  rw [same_foldl (s.fired.drop s.syncMark) _ _ h2 id, ← List.foldl_append, List.take_append_drop]
+  exact (t.cache id).symm
 
 /-! ## Non-vacuity: a concrete run meeting the hypotheses with a non-trivial outcome -/
 
